@@ -212,6 +212,10 @@ func (h *Harness) resolve(n *model.Node, st Strategy, field *ggql.Field, args ma
 	h.Calls = append(h.Calls, Call{Key: base, Strategy: st, Raw: raw, Args: canon, NilArgs: args == nil})
 	flt, bad := h.Plan[base]
 	h.mu.Unlock()
+	if bad && flt.Kind == "panic" {
+		// application code that panics: the caller of ggql recovers; whatever ggql was in the middle of must not stick
+		panic(fmt.Sprintf("injected resolver panic at node %d field %s", base.Node, base.Field))
+	}
 	if bad && flt.Kind != "nth" {
 		return nil, makeErr(flt, base)
 	}
